@@ -72,7 +72,7 @@ fn eos_of(res: ResidualModel, n: usize) -> Arc<Eos> {
 
 fn pool() -> &'static Pool {
     static POOL: OnceLock<Pool> = OnceLock::new();
-    POOL.get_or_init(|| {
+    POOL.get_or_init(|| with_fixed_entropy(|| {
         let mut pures = Vec::new();
         let mut add_pure = |name: &'static str, eos: Arc<Eos>| {
             let cp = State::critical_point(&eos, None, None, SolverOptions::default())
@@ -127,7 +127,7 @@ fn pool() -> &'static Pool {
             bins,
             memo: Mutex::new(HashMap::new()),
         }
-    })
+    }))
 }
 
 // ------------------------------------------------------------------ numbers
